@@ -190,6 +190,33 @@ def _envelope_walk(run):
               message="SgxQeCertData no longer reads its data through SgxQeAuthData's constructor / total size")
 
 
+def _saved(run):
+    """R1s: what was gathered is written to the output file; the endorsement commands run inside a handshake."""
+    P, A = run.P, run.A
+    run.rule("R1s", "Every completed run of the gathering commands that added an element to the certificate saves it to options.output_file_path afterwards; "
+             "do_onboard opens the secure channel (handshake()) before it asks for the device key or sets up the endorsement key.")
+    for q in ("admin.onboard.do_onboard", "admin.ledger_attestation.do_attestation", "admin.sgx_attestation.do_attestation"):
+        fn = P.func(q)
+        g = A.cfg(fn, None)
+        noexc = lambda a, b, g=g: not g.is_exc_edge(a, b)   # noqa: E731
+        adds = [x for c in find_calls(A, fn, "add_element") for x in g.nodes_of(c)]
+        saves = [x for c in find_calls(A, fn, "save_to_jsonfile") if len(c.args) == 1 and _strip(norm(c.args[0])) == "options.output_file_path" for x in g.nodes_of(c)]
+        run.floor("R1s", f"{q}: elements added", len(adds), 1)
+        for a in adds:
+            p_ = g.witness_path(a, g.exit, avoid=set(saves), edge_ok=noexc)
+            run.check("R1s", p_ is None, f"{fn.qualname}: the certificate is saved after the elements were added", key=f"{q}|saved|{a.lineno}", where=fn.loc(a.ast) if a.ast is not None else fn.loc(),
+                      message=f"{q} can complete after adding an element (line {a.lineno}) without saving the certificate to options.output_file_path: nothing (or a stale file) is left "
+                              "for the verify command", witness=g.describe_path(p_) if p_ else None)
+    ob = P.func("admin.onboard.do_onboard")
+    g = A.cfg(ob, None)
+    hs = [x for c in find_calls(A, ob, "handshake") for x in g.nodes_of(c)]
+    for nm_ in ("get_device_key", "setup_endorsement_key"):
+        for c in find_calls(A, ob, nm_):
+            for cn in g.nodes_of(c):
+                run.check("R1s", any(g.dominates(h, cn) for h in hs), f"do_onboard: handshake before {nm_}", key=f"do_onboard|handshake-first|{nm_}", where=ob.loc(c),
+                          message=f"do_onboard calls {nm_}() without the secure-channel handshake before it: the device refuses the endorsement commands outside a channel")
+
+
 def _handshake(run, PV, DA):
     """R2h: the secure-channel handshake the endorsement commands run under."""
     P, A = run.P, run.A
@@ -918,6 +945,7 @@ def run(run):
     # (which bytes of the answers become message / pubkey / signature: rule R2t)
     _endorsement_parse(run, PV, DA, gd, gg, se, gs)
     _handshake(run, PV, DA)
+    _saved(run)
     _envelope_walk(run)
     _pem_chain(run, PV)
     roles = P.enum_members(P.cls("admin.dongle_admin._Role"))
